@@ -3,6 +3,7 @@ package multiraft_test
 import (
 	"fmt"
 	"sort"
+	"strings"
 )
 
 // verifC12Facts is what the oracle measured in a history (for labels and the
@@ -34,6 +35,18 @@ type verifC12Facts struct {
 	MaxBatch          int
 	DupIDs            int // command ids present at more than one index (network duplicated a forwarded proposal)
 	ReplayedAfterOpen int // commands re-applied on top of a restored snapshot at restart
+
+	CrashWrites       int // power losses at a storage write
+	CrashWhat         map[string]int
+	ReplayedAfterCrash int // restarts after a power loss that resumed at an applied-but-not-yet-marked index (state machine without durable applied index)
+	DurableChecks     int // restarts whose storage content was compared with the node's promises
+	MarkChecks        int // restarts whose durable applied index was compared with the acknowledged MarkApplied calls
+	VotesSeen         int // votes (grants and own candidacies) observed on the network
+	VoteAfterRestart  int // (node, slot) pairs that voted in a later incarnation than they first voted in
+	StaleSteps        int // staleLeader steps
+	StaleReached      int // ... where >=2 proposals accepted by the cut-off leader were never applied and its successor applied >=2 commands in a higher term before the heal
+	StaleStillLeader  int // ... and the cut-off leader still believed it led when the partition healed
+	StaleUnresolved   int // proposals accepted by a cut-off leader that were never applied (lost with its log tail)
 }
 
 const verifC12SigForwarded = "ack-by-non-leader-of-term"
@@ -62,6 +75,17 @@ type verifC12Key struct {
 //	    applied or restored it, some replica did apply it, data is p's result;
 //	(R) a stopped node comes back from what its own storage holds (no
 //	    OpenSlot error, no raft panic on the loaded state);
+//	(V) within one term a replica votes for at most one candidate, across
+//	    its incarnations (two leaders in one term, and with them two commands
+//	    at one (index, term), need a double vote);
+//	(P) what a replica has told its peers is backed by its storage when it
+//	    comes back (the documented processReady order: persist, then send):
+//	    its durable term is not below a term it spoke in; a vote it cast in
+//	    the durable term is the durable vote; a log index it acknowledged in
+//	    the durable term is held; and the durable applied index is the one of
+//	    the latest MarkApplied the storage acknowledged (or was executing) -
+//	    with a state machine that relies on that mark, anything else re-applies
+//	    or skips commands at the restart;
 //	(F) after the healed, settled end: every replica holds every command
 //	    that was agreed before the settle point, so no acknowledged proposal
 //	    is lost.
@@ -166,8 +190,16 @@ func verifC12Check(h *verifC12History) verifC12Facts {
 		afterOpen  bool // restored during the current open: following applies are replays
 		openCur    uint64
 		everOpened bool
+		// after a power loss (state machine without durable applied index):
+		// the next incarnation may resume above resumeFloor
+		resumeArmed bool
+		resumeFloor uint64
+		resumeInc   int
 	}
 	reps := map[[2]int]*replica{}
+	votedFor := map[[3]uint64]verifC12Event{}
+	votesOf := map[[2]int][]verifC12Event{}
+	firstVoteInc := map[[2]int]int{}
 	rep := func(node, slot int) *replica {
 		k := [2]int{node, slot}
 		if reps[k] == nil {
@@ -183,10 +215,105 @@ func verifC12Check(h *verifC12History) verifC12Facts {
 			}
 		case "kill":
 			f.Kills++
+			if strings.HasPrefix(e.Err, "write:") {
+				f.CrashWrites++
+				if f.CrashWhat == nil {
+					f.CrashWhat = map[string]int{}
+				}
+				f.CrashWhat[strings.TrimPrefix(e.Err, "write:")]++
+			}
+			if h.Config.SMKind != 2 {
+				// Apply and MarkApplied are two writes: a state machine without a
+				// durable applied index of its own may be handed again what it
+				// applied after the last acknowledged mark, and nothing below
+				for i, floor := range e.Floors {
+					r := rep(e.Node, i+1)
+					r.resumeArmed, r.resumeFloor, r.resumeInc = true, floor, e.Inc
+				}
+			}
+		case "vote":
+			f.VotesSeen++
+			k := [3]uint64{uint64(e.Node), uint64(e.Slot), e.Term}
+			if prev, ok := votedFor[k]; ok && prev.Peer != e.Peer {
+				bad("(V) node %d slot %d voted twice in term %d: for node %d (incarnation %d) and for node %d (incarnation %d)", e.Node, e.Slot, e.Term, prev.Peer, prev.Inc, e.Peer, e.Inc)
+			} else if !ok {
+				votedFor[k] = e
+			}
+			nk := [2]int{e.Node, e.Slot}
+			if first, ok := firstVoteInc[nk]; !ok {
+				firstVoteInc[nk] = e.Inc
+			} else if e.Inc > first && first > 0 {
+				firstVoteInc[nk] = -1
+				f.VoteAfterRestart++
+			}
+			votesOf[nk] = append(votesOf[nk], e)
+		case "durable":
+			f.DurableChecks++
+			if e.SentTerm > e.Term {
+				bad("(P) node %d slot %d came back (incarnation %d) with durable term %d, but it had sent messages in term %d", e.Node, e.Slot, e.Inc, e.Term, e.SentTerm)
+			}
+			for _, v := range votesOf[[2]int{e.Node, e.Slot}] {
+				if v.Inc < e.Inc && v.Term == e.Term && uint64(v.Peer) != e.Vote {
+					bad("(P) node %d slot %d came back (incarnation %d) with durable term %d vote %d, but incarnation %d had cast its vote of that term for node %d", e.Node, e.Slot, e.Inc, e.Term, e.Vote, v.Inc, v.Peer)
+				}
+			}
+			if e.AckTerm != 0 && e.AckTerm == e.Term && e.Last < e.AckIndex {
+				bad("(P) node %d slot %d came back (incarnation %d) with last log index %d in term %d, but it had acknowledged index %d in that term", e.Node, e.Slot, e.Inc, e.Last, e.Term, e.AckIndex)
+			}
+			if len(e.Marks) > 0 {
+				f.MarkChecks++
+				ok := false
+				for _, m := range e.Marks {
+					ok = ok || m == e.Index
+				}
+				if !ok {
+					bad("(P) node %d slot %d came back (incarnation %d) with durable applied index %d; the storage had acknowledged MarkApplied(%d) last (acknowledged or in flight at the stop: %v)", e.Node, e.Slot, e.Inc, e.Index, e.Marks[0], e.Marks)
+				}
+			}
+		case "stale":
+			f.StaleSteps++
+			lost := 0
+			for _, id := range e.IDs {
+				if idIndexes[fmt.Sprintf("%d|%s", e.Slot, id)] == 0 {
+					lost++
+				}
+			}
+			f.StaleUnresolved += lost
+			newer := 0
+			for k, c := range canon {
+				if k.slot == e.Slot && c.Term > e.Term && firstSeq[k] < e.Seq {
+					newer++
+				}
+			}
+			if lost >= 2 && e.Peer != 0 && newer >= 2 {
+				f.StaleReached++
+				if e.Opening {
+					f.StaleStillLeader++
+				}
+			}
 		case "restartfailed":
 			bad("(R) %s", e.Err)
 		case "apply":
 			r := rep(e.Node, e.Slot)
+			if r.resumeArmed && e.Inc > r.resumeInc {
+				r.resumeArmed = false
+				if e.Index <= r.cur && e.Index > r.resumeFloor {
+					// the restart resumes at a command applied after the last
+					// acknowledged MarkApplied: the suffix is handed over again
+					f.ReplayedAfterCrash++
+					for i := range r.held {
+						if i >= e.Index {
+							delete(r.held, i)
+						}
+					}
+					r.cur = e.Index - 1
+					if prev := between(e.Slot, r.resumeFloor, e.Index); len(prev) > 0 {
+						if _, ok := r.held[prev[len(prev)-1]]; !ok {
+							bad("(C) node %d slot %d (incarnation %d) resumed at index %d after a power loss without holding agreed command at %d", e.Node, e.Slot, e.Inc, e.Index, prev[len(prev)-1])
+						}
+					}
+				}
+			}
 			if e.Index <= r.cur {
 				if _, had := r.held[e.Index]; had {
 					bad("(B) node %d slot %d (incarnation %d) applied index %d (%q) again: its state already was at index %d", e.Node, e.Slot, e.Inc, e.Index, e.ID, r.cur)
@@ -219,6 +346,7 @@ func verifC12Check(h *verifC12History) verifC12Facts {
 				bad("(D) node %d slot %d Restore(%d): %s", e.Node, e.Slot, e.Index, e.Err)
 				continue
 			}
+			r.resumeArmed = false
 			if e.Opening {
 				f.RestoresOpen++
 				r.afterOpen, r.openCur = true, r.cur
